@@ -179,6 +179,9 @@ def _ctparse(
         labels = _get_labels(txt)
         # clear raw text of labels so what follows works properly
         txt = re.sub('#[a-zA-Z0-9_-]+','', txt).strip()
+        # cutting a label out of the middle leaves two blanks; collapse them, else
+        # the text (and what covers most of it) depends on the labels
+        txt = re.sub(' +', ' ', txt)
 
         logger.debug("=" * 80)
         logger.debug("-> matching regular expressions")
